@@ -25,7 +25,7 @@ BOUNDS = {
              'duplicates occur), through domain split, recipient split and '
              'both in either order (4 recipients: domain split then recipient '
              'split); chain cells: every chain of <=2 policies '
-             'out of 11 (recipient split, domain split, forward with 4 rule '
+             'out of 12 (recipient split, domain split, forward with 5 rule '
              'sets, Date, Message-Id, Received, pass-through test policy, two '
              'generator-style test policies) '
              'over 5 recipient lists from a menu, Date/Message-Id present or '
@@ -56,8 +56,11 @@ RULES = [
      (r'a', 'A', 1)],
     # the rule that empties the recipient is the last (only) one tried
     [(r'^postmaster$', '', 0)],
+    # an exemption: the first matching rule rewrites the address to itself,
+    # a broader rule follows
+    [(r'^(postmaster|a@x\.com)$', r'\g<0>', 0), (r'^(post|a@)', 'X', 0)],
 ]
-POLICIES = ['rsplit', 'dsplit', 'fwd0', 'fwd1', 'fwd2', 'fwd3', 'date', 'msgid',
+POLICIES = ['rsplit', 'dsplit', 'fwd0', 'fwd1', 'fwd2', 'fwd3', 'fwd4', 'date', 'msgid',
             'received', 'passthru', 'genpass', 'gennone']
 
 
